@@ -133,6 +133,8 @@ def run_forced(raw, responder, schedule, *, workers, phase="fuzzing", max_exampl
                 if lab == "Stop":
                     stream_box[0].stop()
                     result["arrivals"].append("stop")
+                    result.setdefault("requests_at_stop", len(rec.requests))
+                    result.setdefault("events_at_stop", len(evs))
                     continue
                 result["arrivals"].append(ctl.step(lab))
             result["prefix_len"] = len(evs)
